@@ -246,6 +246,17 @@ theorem diffusion_seeds_kept (c : Csr Rat) (hw : ∀ p, 0 ≤ c.data.getD p 0) (
   · exact Or.inl hs
   · exact Or.inr (Diffusion.seeds_kept c hw labels nIter centering o h i (by omega))
 
+/-- ★ **maximum principle** (the fact `seeds_kept` rests on; C14 states it for the regression variant): without
+    centring every temperature of the result lies in [0, 1], for any number of iterations. -/
+theorem diffusion_temperatures_unit (c : Csr Rat) (hw : ∀ p, 0 ≤ c.data.getD p 0) (labels : List Int) (nIter : Nat)
+    (o : Diffusion.Out) (h : Diffusion.fit c labels nIter false = .ok o) :
+    ∀ i q, 0 ≤ getCell o.temps i q ∧ getCell o.temps i q ≤ 1 := by
+  have hp := Diffusion.fit_parts c labels nIter false o h
+  intro i q
+  rw [hp.temps]
+  simp only [Bool.false_eq_true, if_false]
+  exact Diffusion.unit01_final c hw labels nIter i q
+
 /-- ★ **labels_in_seed_set** (DiffusionClassifier): every predicted label is a seed label or `-1`. -/
 theorem diffusion_labels_in_seed_set (c : Csr Rat) (labels : List Int) (nIter : Nat)
     (centering : Bool) (o : Diffusion.Out) (h : Diffusion.fit c labels nIter centering = .ok o) :
